@@ -59,6 +59,7 @@ type node struct {
 	log     *log
 
 	waitprocesses sync.WaitGroup
+	stopping      atomic.Bool
 	wait          chan struct{}
 	once          sync.Once
 
@@ -807,6 +808,10 @@ func (n *node) stop(force bool) {
 		// already stopped
 		return
 	}
+
+	// a process spawned from now on is told to shut down by spawn itself: it
+	// may be registered after the walk through the processes below
+	n.stopping.Store(true)
 
 	if force == false {
 		n.applications.Range(func(_, v any) bool {
@@ -1795,6 +1800,12 @@ func (n *node) spawn(factory gen.ProcessFactory, options gen.ProcessOptionsExtra
 	// do not count system app processes
 	if p.application != system.Name {
 		n.waitprocesses.Add(1)
+	}
+
+	if n.stopping.Load() {
+		// the node is being stopped and may have gone through its processes
+		// already: nobody else would tell this one
+		n.RouteSendExit(p.parent, p.pid, gen.TerminateReasonShutdown)
 	}
 
 	// process could send a message to itself during initialization
